@@ -308,7 +308,7 @@ def modelPub (q : PubReq) : String := Id.run do
 structure SubReq where
   stack : List LSpec
   subErr : Bool
-  closeErr : Bool
+  closes : List Bool       -- one entry per Close call: does the innermost subscriber's Close fail?
   n : Nat
   script : List Char
   reads : Nat
@@ -319,29 +319,40 @@ def parseSubReq (f : List String) (rec : List String) : Option SubReq :=
   | [st, se, ce, n, sc, rd] => do
     let st ← parseStack st
     let se ← parseBit se
-    let ce ← parseBit ce
+    let ce ← parseBits ce
     let n ← n.toNat?
     let sc := if sc = "-" then [] else sc.toList
     let rd ← rd.toNat?
     let inner ← (recGet rec "inner").bind hexStr?
-    if sc.all (fun c => c = 'a' ∨ c = 'n' ∨ c = 'u') ∧ sc.length = n ∧ rd ≤ n ∧ st.all (fun l => match l with | .D _ _ => false | _ => true) then
+    if sc.all (fun c => c = 'a' ∨ c = 'n' ∨ c = 'u' ∨ c = 'A' ∨ c = 'N') ∧ sc.length = n ∧ rd ≤ n ∧ 1 ≤ ce.length ∧ ce.length ≤ 3 ∧ st.all (fun l => match l with | .D _ _ => false | _ => true) then
       pure ⟨st, se, ce, n, sc, rd, inner⟩
     else none
   | _ => none
 
-def settleOf (script : List Char) (late : Bool) (id : Nat) : Settle :=
+/-- what happens to message `id`, in time order.  a / n: settled while subscribed; A / N: settled after the subscription
+    context was cancelled; u: acked after Close (which cancels the message contexts as well).  `late = false`: the
+    events up to snapshot A (before the cancellation). -/
+def eventsOf (script : List Char) (late : Bool) (id : Nat) : List WEv :=
   match script[id]? with
-  | some 'a' => .ack
-  | some 'n' => .nack
-  | some 'u' => if late then .ack else .none
-  | _ => .none
+  | some 'a' => [.ack] ++ (if late then [.cancel] else [])
+  | some 'n' => [.nack] ++ (if late then [.cancel] else [])
+  | some 'A' => if late then [.cancel, .ack] else []
+  | some 'N' => if late then [.cancel, .nack] else []
+  | some 'u' => if late then [.cancel, .ack] else []
+  | _ => []
+
+def settleOf (script : List Char) (late : Bool) (id : Nat) : Settle :=
+  settleOfRun (watcherRun (eventsOf script late id))
+
+def closeToks (rs : List (Option Err)) (n : Nat) : String :=
+  ",".intercalate (rs.map errTok) ++ s!"/{n}"
 
 def modelSub (q : SubReq) : String :=
   match mkSubStack q.stack with
   | none => "bad-op"
   | some stack =>
-    let cl := closeSub stack q.closeErr 0
-    let closeTok := s!"{errTok cl.1}/{cl.2}"
+    let cl := closeSubSeq stack q.closes 0
+    let closeTok := closeToks cl.1 cl.2
     if (subscribeErr stack q.subErr).isSome then s!"sub={errTok (subscribeErr stack q.subErr)}|recv=-|A=-|close={closeTok}|chan=-|B=-" else
     let msgs : List Msg := (List.range q.n).map (fun i => { id := i, md := [("k", .raw "v")] })
     let (got, ws) := subscribeRun q.inner stack msgs q.reads
@@ -599,7 +610,9 @@ def monitorSub (q : SubReq) (obs : String) : String := Id.run do
   let some bS := section? secs "B" | return "bad-op"
   let some closeS := section? secs "close" | return "bad-op"
   let some chanS := section? secs "chan" | return "bad-op"
-  if closeS ≠ (if q.closeErr then "e:close" else "ok") ++ "/1" then return "violated:close_once_result_passes"
+  -- every Close call reaches the wrapped subscriber once and returns that call's own result
+  let wantClose := ",".intercalate (q.closes.map (fun b => if b then "e:close" else "ok")) ++ s!"/{q.closes.length}"
+  if closeS ≠ wantClose then return "violated:close_each_call_passes"
   if q.subErr then
     if subS ≠ "e:sub" ∨ recvS ≠ "-" then return "violated:subscribe_error_passes"
     if aS ≠ "-" ∨ bS ≠ "-" then return "violated:metrics_subscribe_once"
@@ -613,6 +626,7 @@ def monitorSub (q : SubReq) (obs : String) : String := Id.run do
   let mut na := 0
   let mut nn := 0
   let mut nu := 0
+  let mut nlN := 0
   for (i, r) in (List.range recv.length).zip recv do
     match r.splitOn ":" with
     | [id, p, same, st] =>
@@ -622,7 +636,8 @@ def monitorSub (q : SubReq) (obs : String) : String := Id.run do
       let act := q.script.getD i 'u'
       let want := if act = 'a' then "a" else if act = 'n' then "n" else "-"
       if st ≠ want then return "violated:settle_reaches_inner"
-      if act = 'a' then na := na + 1 else if act = 'n' then nn := nn + 1 else nu := nu + 1
+      if act = 'a' then na := na + 1 else if act = 'n' then nn := nn + 1
+      else if act = 'N' then nlN := nlN + 1 else nu := nu + 1     -- late acks: u (after Close) and A (after cancel)
     | _ => return "bad-op"
   let some ma := parseMetrics aS | return "bad-op"
   let some mb := parseMetrics bS | return "bad-op"
@@ -630,7 +645,9 @@ def monitorSub (q : SubReq) (obs : String) : String := Id.run do
     if (ma ++ mb).any (fun m => m.1 ≠ "sub") then return "violated:metrics_foreign_series"
     if metricCount ma "sub" lblAcked ≠ na ∨ metricCount ma "sub" lblNacked ≠ nn ∨ famTotal ma "sub" ≠ na + nn then
       return "violated:metrics_subscribe_once"
-    if metricCount mb "sub" lblAcked ≠ na + nu ∨ metricCount mb "sub" lblNacked ≠ nn ∨ famTotal mb "sub" ≠ na + nn + nu then
+    -- at the end every received message is settled – some while subscribed, some after the subscription context was
+    -- cancelled or the subscriber closed – and each is counted once with the label of its settlement
+    if metricCount mb "sub" lblAcked ≠ na + nu ∨ metricCount mb "sub" lblNacked ≠ nn + nlN ∨ famTotal mb "sub" ≠ na + nn + nu + nlN then
       return "violated:metrics_subscribe_once"
   else if !(ma ++ mb).isEmpty then return "violated:metrics_foreign_series"
   if secs.length ≠ 6 then return "violated:liveness"     -- a quiesce-timeout marker and nothing more specific
